@@ -15,7 +15,7 @@ func withOnly(rs []hrun, only []string, panics bool) []hrun {
 	return out
 }
 
-const nContexts = 32
+const nContexts = 36
 
 func ctxRuns(thorough bool) []hrun {
 	var r []hrun
@@ -75,7 +75,7 @@ var c02ids = []string{"inline-confined", "inline-columns-are-query-fields", "inl
 	"param-columns-are-query-fields", "ident-confined", "ident-is-the-name", "ident-nonempty", "ident-param-confined", "ident-param-is-the-name", "ident-same-outcome", "value-confined", "value-param-confined", "quoted-sql-shape", "quoted-sql-constant-verbatim"}
 var c03ids = []string{"fragment-renders", "sql-means-query", "sql-well-typed", "inline-numbers-are-query-values"}
 var c04ids = []string{"inline-ok-implies-param-ok", "param-count", "param-no-inline-values", "param-values-in-order", "param-substitution-equals-inline",
-	"param-means-inline", "same-outcome-for-same-kinds", "sql-text-independent-of-values", "param-count-independent-of-values", "value-param-confined", "value-param-equals-inline-constant"}
+	"param-means-inline", "same-outcome-for-same-kinds", "sql-text-independent-of-values", "param-count-independent-of-values", "value-param-confined", "value-param-equals-inline-constant", "inline-same-after-param"}
 
 const nSQLForms = 54
 
@@ -122,6 +122,9 @@ func quotedValueRuns(thorough bool) []hrun {
 // identOutcomeRuns (C04): field names with arbitrary bytes render in both modes or in neither.
 func identOutcomeRuns() []hrun {
 	return []hrun{
+		// the two renderers called in the other order, and lists only the exported API can build
+		{Harness: "SQLLeaf", Params: P("FORM", 6, "CONCRETE", 1, "SEQ", 1)}, {Harness: "SQLLeaf", Params: P("FORM", 12, "CONCRETE", 1, "SEQ", 1)}, {Harness: "SQLLeaf", Params: P("FORM", 22, "CONCRETE", 1, "SEQ", 1)},
+		{Harness: "ParamAPI"},
 		{Harness: "IdentConfined", Params: P("MODE", 0, "UNITS", 2)}, {Harness: "IdentConfined", Params: P("MODE", 0, "UNITS", 2, "TAIL", 1)}, {Harness: "IdentConfined", Params: P("MODE", 0, "UNITS", 2, "TAIL", 4)},
 		{Harness: "IdentConfined", Params: P("MODE", 1, "UNITS", 1)}, {Harness: "IdentConfined", Params: P("MODE", 1, "UNITS", 2)},
 	}
@@ -131,6 +134,7 @@ func valueRuns(thorough bool) []hrun {
 	r := []hrun{
 		{Harness: "ValueConfined", Params: P("MODE", 0, "UNITS", 1)}, {Harness: "ValueConfined", Params: P("MODE", 0, "UNITS", 2)}, {Harness: "ValueConfined", Params: P("MODE", 0, "UNITS", 3)},
 		{Harness: "ValueConfined", Params: P("MODE", 1, "UNITS", 0)}, {Harness: "ValueConfined", Params: P("MODE", 1, "UNITS", 1)}, {Harness: "ValueConfined", Params: P("MODE", 1, "UNITS", 2)},
+		{Harness: "ValueConfined", Params: P("MODE", 2, "UNITS", 1)}, {Harness: "ValueConfined", Params: P("MODE", 2, "UNITS", 2)},
 	}
 	if thorough {
 		r = append(r, hrun{Harness: "ValueConfined", Params: P("MODE", 0, "UNITS", 4)}, hrun{Harness: "ValueConfined", Params: P("MODE", 1, "UNITS", 3)})
@@ -161,6 +165,35 @@ func chainRuns() []hrun {
 		}
 	}
 	r = append(r, hrun{Harness: "ParseChain", Params: P("N", 40, "SHAPE", 8)}) // nested field groups
+	for _, sh := range []int{0, 1, 2, 3, 9} { // chains longer than the usual fixed limits (32, 64)
+		r = append(r, hrun{Harness: "ParseChain", Params: P("N", 70, "SHAPE", sh)})
+	}
+	r = append(r, hrun{Harness: "TreeTotality", Params: P("D", 1, "FORMS", 1)})
+	return r
+}
+
+// longChainRuns: fielded AND / OR chains of 32 and 70 clauses (C03: ToPostgres succeeds at any
+// length) and every chain shape with and without a default field (C11: same acceptance).
+func longChainRuns(all bool) []hrun {
+	var r []hrun
+	shapes := []int{0, 9}
+	if all {
+		shapes = []int{0, 1, 2, 3, 4, 5, 6, 7, 9}
+	}
+	for _, sh := range shapes {
+		r = append(r, hrun{Harness: "ParseChain", Params: P("N", 32, "SHAPE", sh)})
+		if sh != 6 && sh != 7 {
+			r = append(r, hrun{Harness: "ParseChain", Params: P("N", 70, "SHAPE", sh)})
+		}
+	}
+	return r
+}
+
+func oddDefaultFieldRuns() []hrun {
+	var r []hrun
+	for df := 2; df <= 8; df++ {
+		r = append(r, hrun{Harness: "ParseBytes", Params: P("N", 1, "DF", df), Panics: true}, hrun{Harness: "ParseBytes", Params: P("N", 2, "DF", df), Panics: true})
+	}
 	return r
 }
 
@@ -181,6 +214,9 @@ func parseRuns(thorough bool) []hrun {
 		}
 		for k := 1; k <= maxK; k++ {
 			r = append(r, hrun{Harness: "ParseTokens", Params: P("K", k, "DF", df, "WIDE", 0), Panics: true})
+		}
+		if df == 1 {
+			r = append(r, oddDefaultFieldRuns()...)
 		}
 		if !thorough { // three tokens over one representative per token kind
 			r = append(r, hrun{Harness: "ParseTokens", Params: P("K", 3, "DF", df, "WIDE", 0, "SHAPES", 1), Panics: true})
@@ -203,8 +239,8 @@ var props = map[string]propCfg{
 		Outside:  "identifiers longer than 63 bytes; values longer than the hole widths; PostgreSQL settings other than standard_conforming_strings=on; the SQL fragment is parsed by a model of PostgreSQL's grammar (validated against pg_query natively)",
 	},
 	"C03": {
-		Quick:    withOnly(sqlRuns(false, 1), c03ids, false),
-		Thorough: withOnly(sqlRuns(true, 1), c03ids, false),
+		Quick:    withOnly(append(sqlRuns(false, 1), longChainRuns(false)...), c03ids, false),
+		Thorough: withOnly(append(sqlRuns(true, 1), longChainRuns(false)...), c03ids, false),
 		Bounds:   "every leaf form of the filterable fragment with symbolic constants (1-2 digit integers, 2-byte strings, 2-3 byte patterns) and a symbolic row value of the matching type (integers -3..103, strings of 0-3 printable bytes); boolean trees (AND OR NOT + -) of depth <= 2 over integer and string leaves with one symbolic row value per field",
 		Outside:  "NULLs; collations other than bytewise; floats other than the listed constants; regexp meaning; SIMILAR TO patterns containing regex metacharacters; ranges whose bounds have different types; field groups that contain a pattern; deeper trees",
 	},
@@ -275,7 +311,7 @@ var props = map[string]propCfg{
 		Outside: "white space characters other than space, tab, CR, LF; whitespace inside quoted phrases",
 	},
 	"C11": {
-		Quick: []hrun{
+		Quick: append([]hrun{
 			{Harness: "TreeDefaultField", Params: P("D", 1, "LEAVES", 1, "DFKIND", 0)}, {Harness: "TreeDefaultField", Params: P("D", 1, "LEAVES", 1, "DFKIND", 1)},
 			{Harness: "TreeDefaultField", Params: P("D", 2, "LEAVES", 0, "DFKIND", 0)},
 			{Harness: "TreeDefaultField", Params: P("D", 1, "LEAVES", 1, "DFKIND", 0, "VARIANT", 1)},
@@ -283,8 +319,8 @@ var props = map[string]propCfg{
 			{Harness: "TreeDefaultField", Params: P("D", 1, "LEAVES", 7, "DFKIND", 0, "VARIANT", 2)},
 			{Harness: "TreeDefaultField", Params: P("D", 1, "LEAVES", 1, "DFKIND", 2)}, {Harness: "TreeDefaultField", Params: P("D", 1, "LEAVES", 1, "DFKIND", 3)}, {Harness: "TreeDefaultField", Params: P("D", 1, "LEAVES", 0, "DFKIND", 4)},
 			{Harness: "GroupDefaultField", Params: P("GD", 1)}, {Harness: "GroupDefaultField", Params: P("GD", 2, "GFORMS", 1)}, {Harness: "GroupDefaultField", Params: P("GD", 3, "GFORMS", 1)},
-		},
-		Thorough: []hrun{
+		}, longChainRuns(true)...),
+		Thorough: append([]hrun{
 			{Harness: "GroupDefaultField", Params: P("GD", 1)}, {Harness: "GroupDefaultField", Params: P("GD", 2)}, {Harness: "GroupDefaultField", Params: P("GD", 3, "GFORMS", 1)},
 			{Harness: "TreeDefaultField", Params: P("D", 1, "LEAVES", 7, "DFKIND", 0, "VARIANT", 2)}, {Harness: "TreeDefaultField", Params: P("D", 2, "LEAVES", 0, "DFKIND", 0, "VARIANT", 2)},
 			{Harness: "TreeDefaultField", Params: P("D", 1, "LEAVES", 1, "DFKIND", 2)}, {Harness: "TreeDefaultField", Params: P("D", 1, "LEAVES", 1, "DFKIND", 3)}, {Harness: "TreeDefaultField", Params: P("D", 1, "LEAVES", 0, "DFKIND", 4)},
@@ -292,7 +328,7 @@ var props = map[string]propCfg{
 			{Harness: "TreeDefaultField", Params: P("D", 1, "LEAVES", 1, "DFKIND", 0, "VARIANT", 1)}, {Harness: "TreeDefaultField", Params: P("D", 2, "LEAVES", 0, "DFKIND", 0, "VARIANT", 1)},
 			{Harness: "TreeDefaultField", Params: P("D", 1, "LEAVES", 1, "DFKIND", 0)}, {Harness: "TreeDefaultField", Params: P("D", 1, "LEAVES", 1, "DFKIND", 1)},
 			{Harness: "TreeDefaultField", Params: P("D", 2, "LEAVES", 0, "DFKIND", 0)}, {Harness: "TreeDefaultField", Params: P("D", 2, "LEAVES", 2, "DFKIND", 0)},
-		},
+		}, longChainRuns(true)...),
 		Bounds:  "trees as in C05; default field names of 2-3 symbolic bytes (identifier-like, one needing quoting, leading/trailing white space) disjoint from the query's fields; field groups x:(E) with E of depth <= 3 over OR/AND/NOT and bare strings (depth <= 2 also numbers and patterns), alone and beside other operands",
 		Outside: "deeper trees",
 	},
@@ -302,12 +338,16 @@ var props = map[string]propCfg{
 			{Harness: "EscapeVerbatim", Params: P("N", 1)}, {Harness: "EscapeVerbatim", Params: P("N", 2)}, {Harness: "EscapeVerbatim", Params: P("N", 3)},
 			{Harness: "QuoteVerbatim", Params: P("N", 1, "CTXV", 1)}, {Harness: "QuoteVerbatim", Params: P("N", 2, "CTXV", 1)}, {Harness: "QuoteVerbatim", Params: P("N", 3, "CTXV", 1)},
 			{Harness: "EscapeVerbatim", Params: P("N", 1, "CTXV", 1)}, {Harness: "EscapeVerbatim", Params: P("N", 2, "CTXV", 1)}, {Harness: "EscapeVerbatim", Params: P("N", 0, "MB", 1)}, {Harness: "EscapeVerbatim", Params: P("N", 1, "MB", 1)}, {Harness: "EscapeVerbatim", Params: P("N", 2, "MB", 1)},
+			{Harness: "QuoteVerbatim", Params: P("N", 1, "CTXV", 2)}, {Harness: "QuoteVerbatim", Params: P("N", 2, "CTXV", 2)}, {Harness: "QuoteVerbatim", Params: P("N", 3, "CTXV", 2)},
+			{Harness: "EscapeVerbatim", Params: P("N", 1, "HEX", 1)}, {Harness: "EscapeVerbatim", Params: P("N", 2, "HEX", 1)},
 		},
 		Thorough: []hrun{
 			{Harness: "QuoteVerbatim", Params: P("N", 0)}, {Harness: "QuoteVerbatim", Params: P("N", 1)}, {Harness: "QuoteVerbatim", Params: P("N", 2)}, {Harness: "QuoteVerbatim", Params: P("N", 3)}, {Harness: "QuoteVerbatim", Params: P("N", 4)},
 			{Harness: "EscapeVerbatim", Params: P("N", 1)}, {Harness: "EscapeVerbatim", Params: P("N", 2)}, {Harness: "EscapeVerbatim", Params: P("N", 3)}, {Harness: "EscapeVerbatim", Params: P("N", 4)},
 			{Harness: "QuoteVerbatim", Params: P("N", 1, "CTXV", 1)}, {Harness: "QuoteVerbatim", Params: P("N", 2, "CTXV", 1)}, {Harness: "QuoteVerbatim", Params: P("N", 3, "CTXV", 1)}, {Harness: "QuoteVerbatim", Params: P("N", 4, "CTXV", 1)},
 			{Harness: "EscapeVerbatim", Params: P("N", 1, "CTXV", 1)}, {Harness: "EscapeVerbatim", Params: P("N", 2, "CTXV", 1)}, {Harness: "EscapeVerbatim", Params: P("N", 3, "CTXV", 1)}, {Harness: "EscapeVerbatim", Params: P("N", 0, "MB", 1)}, {Harness: "EscapeVerbatim", Params: P("N", 1, "MB", 1)}, {Harness: "EscapeVerbatim", Params: P("N", 2, "MB", 1)}, {Harness: "EscapeVerbatim", Params: P("N", 3, "MB", 1)},
+			{Harness: "QuoteVerbatim", Params: P("N", 1, "CTXV", 2)}, {Harness: "QuoteVerbatim", Params: P("N", 2, "CTXV", 2)}, {Harness: "QuoteVerbatim", Params: P("N", 3, "CTXV", 2)}, {Harness: "QuoteVerbatim", Params: P("N", 4, "CTXV", 2)},
+			{Harness: "EscapeVerbatim", Params: P("N", 1, "HEX", 1)}, {Harness: "EscapeVerbatim", Params: P("N", 2, "HEX", 1)}, {Harness: "EscapeVerbatim", Params: P("N", 3, "HEX", 1)},
 		},
 		Bounds:  "quoting: all byte strings w of length <= 3 (quick) / <= 4 (thorough) that are valid UTF-8 without '\"' and NUL, every byte value; escaping: all ASCII texts w of length <= 3/4 whose first byte is not a digit, sign, dot or i/n (numbers, inf, nan) and that do not spell AND/OR/NOT/TO; both clauses also for a free-standing term under AND with a default field (a:b AND <term>)",
 		Outside: "longer texts; non-ASCII texts in the escaping clause other than one multi-byte character (a letter, a dash, a currency sign, a section sign, an emoji) in second position; single-quoted phrases",
@@ -319,8 +359,8 @@ var props = map[string]propCfg{
 		Outside:  "longer inputs; garbage needing more than 2 free tokens in one place",
 	},
 	"C12": {
-		Quick:    []hrun{{Harness: "JSONRoundTrip", Params: P("D", 1, "LEAVES", 4)}},
-		Thorough: []hrun{{Harness: "JSONRoundTrip", Params: P("D", 1, "LEAVES", 4)}, {Harness: "JSONRoundTrip", Params: P("D", 2, "LEAVES", 0)}},
+		Quick:    []hrun{{Harness: "JSONRoundTrip", Params: P("D", 1, "LEAVES", 4)}, {Harness: "JSONRoundTrip", Params: P("D", 1, "LEAVES", 0, "REUSE", 1)}},
+		Thorough: []hrun{{Harness: "JSONRoundTrip", Params: P("D", 1, "LEAVES", 4)}, {Harness: "JSONRoundTrip", Params: P("D", 2, "LEAVES", 0)}, {Harness: "JSONRoundTrip", Params: P("D", 1, "LEAVES", 0, "REUSE", 1)}, {Harness: "JSONRoundTrip", Params: P("D", 2, "LEAVES", 0, "REUSE", 1)}},
 		Bounds:   "every tree of depth <= 1 over 30 leaf forms (all operators incl. default and explicit boost powers / fuzzy distances, inclusive/exclusive/open ranges, lists of strings and ints, empty quoted string, two- and three-byte UTF-8 text, quotes/commas in values, quoted patterns and quoted /regexps/ and whole floats (deep equality waived for exactly those), integers beyond int64, a regexp ending in an escaped backslash) with symbolic leaf bytes (quick); depth <= 2 over 3 leaf forms (thorough); through Parse, Marshal, Unmarshal, Validate, re-Marshal, String, Render, RenderParam",
 		Outside:  "encoding/json itself is replaced by a pure-Go stand-in for the types involved (compared with the real package on every natively replayed path); strings whose JSON encoding needs escapes other than those in the hole classes; deeper trees",
 	},
@@ -328,11 +368,11 @@ var props = map[string]propCfg{
 		Quick: withOnly([]hrun{
 			{Harness: "JSONBytes", Params: P("N", 0)}, {Harness: "JSONBytes", Params: P("N", 1)}, {Harness: "JSONBytes", Params: P("N", 2)}, {Harness: "JSONBytes", Params: P("N", 3)}, {Harness: "JSONBytes", Params: P("N", 4)}, {Harness: "JSONBytes", Params: P("N", 5)},
 			{Harness: "JSONDoc", Params: P("D", 0, "LITE", 1)},
-			{Harness: "JSONDoc", Params: P("D", 0, "LITE", 1, "RB", 1, "BSHAPE", 1)}, {Harness: "JSONDoc", Params: P("D", 0, "BS", 1)}, {Harness: "JSONDoc", Params: P("D", 0, "NEST", 1)},
+			{Harness: "JSONDoc", Params: P("D", 0, "LITE", 1, "RB", 1, "BSHAPE", 1)}, {Harness: "JSONDoc", Params: P("D", 0, "BS", 1)}, {Harness: "JSONDoc", Params: P("D", 0, "NEST", 1)}, {Harness: "JSONDoc", Params: P("D", 0, "LITE", 1, "PW", 1)},
 		}, nil, true),
 		Thorough: withOnly([]hrun{
 			{Harness: "JSONBytes", Params: P("N", 0)}, {Harness: "JSONBytes", Params: P("N", 1)}, {Harness: "JSONBytes", Params: P("N", 2)}, {Harness: "JSONBytes", Params: P("N", 3)}, {Harness: "JSONBytes", Params: P("N", 4)}, {Harness: "JSONBytes", Params: P("N", 5)}, {Harness: "JSONBytes", Params: P("N", 6)},
-			{Harness: "JSONDoc", Params: P("D", 0)}, {Harness: "JSONDoc", Params: P("D", 0, "RB", 1, "BSHAPE", 1)}, {Harness: "JSONDoc", Params: P("D", 0, "BS", 1)}, {Harness: "JSONDoc", Params: P("D", 0, "NEST", 1)}, {Harness: "JSONDoc", Params: P("D", 1, "LITE", 1), Seconds: 1200},
+			{Harness: "JSONDoc", Params: P("D", 0)}, {Harness: "JSONDoc", Params: P("D", 0, "RB", 1, "BSHAPE", 1)}, {Harness: "JSONDoc", Params: P("D", 0, "BS", 1)}, {Harness: "JSONDoc", Params: P("D", 0, "NEST", 1)}, {Harness: "JSONDoc", Params: P("D", 0, "LITE", 1, "PW", 1)}, {Harness: "JSONDoc", Params: P("D", 1, "LITE", 1), Seconds: 1200},
 		}, nil, true),
 		Bounds:  "all byte strings of length <= 5 (quick) / 6 (thorough) decoded into an Expression; all compact documents {left?, operator?, right?, distance/power/boundaries/extra?} whose members are strings of 0-2 symbolic bytes, numbers, null, true, arrays, range-boundary objects (complete, without inclusive, or with min or max occurring only below another member), wrongly typed values, operator names from the table or arbitrary 2-byte strings or a number (nested objects to depth 1 in thorough); decoded expressions that validate go through String, %#v, Marshal, Render, RenderParam",
 		Outside: "encoding/json replaced by the stand-in (see C12); object keys with non-ASCII bytes (cut); documents deeper than the bound; white space between tokens beyond what the byte tier generates",
@@ -359,6 +399,7 @@ var props = map[string]propCfg{
 			{Harness: "DriverFold", Params: P("D", 1, "LEAVES", 1, "MODE", 1, "RETLEN", 1)},
 			{Harness: "DriverFold", Params: P("D", 1, "LEAVES", 2, "MODE", 2, "RETLEN", 1)},
 			{Harness: "DriverFold", Params: P("D", 1, "LEAVES", 2, "MODE", 0, "RETLEN", 1, "ONEITEM", 1)}, {Harness: "DriverFold", Params: P("D", 1, "LEAVES", 2, "MODE", 2, "RETLEN", 1, "ONEITEM", 1)},
+			{Harness: "DriverFold", Params: P("D", 1, "LEAVES", 2, "MODE", 0, "RETLEN", 1, "UNDEF", 1)}, {Harness: "DriverFold", Params: P("D", 2, "LEAVES", 3, "OPS", 1, "MODE", 0, "RETLEN", 1)}, {Harness: "DriverFold", Params: P("D", 2, "LEAVES", 3, "OPS", 1, "MODE", 2, "RETLEN", 1)},
 			{Harness: "UnsupportedOps", Params: P("D", 2, "LEAVES", 0)}, {Harness: "UnsupportedOps", Params: P("D", 1, "LEAVES", 0, "PRIV", 1)},
 		},
 		Thorough: []hrun{
@@ -370,6 +411,7 @@ var props = map[string]propCfg{
 			{Harness: "DriverFold", Params: P("D", 2, "LEAVES", 0, "MODE", 0, "RETLEN", 1)},
 			{Harness: "DriverFold", Params: P("D", 2, "LEAVES", 0, "MODE", 1, "RETLEN", 1)},
 			{Harness: "DriverFold", Params: P("D", 1, "LEAVES", 2, "MODE", 0, "RETLEN", 1, "ONEITEM", 1)}, {Harness: "DriverFold", Params: P("D", 1, "LEAVES", 2, "MODE", 2, "RETLEN", 1, "ONEITEM", 1)},
+			{Harness: "DriverFold", Params: P("D", 1, "LEAVES", 2, "MODE", 0, "RETLEN", 1, "UNDEF", 1)}, {Harness: "DriverFold", Params: P("D", 2, "LEAVES", 3, "OPS", 1, "MODE", 0, "RETLEN", 1)}, {Harness: "DriverFold", Params: P("D", 2, "LEAVES", 3, "OPS", 1, "MODE", 2, "RETLEN", 1)},
 			{Harness: "UnsupportedOps", Params: P("D", 2, "LEAVES", 0)},
 			{Harness: "UnsupportedOps", Params: P("D", 1, "LEAVES", 1)}, {Harness: "UnsupportedOps", Params: P("D", 1, "LEAVES", 1, "PRIV", 1)},
 		},
